@@ -16,14 +16,16 @@ RULE = ("seeded plans: 2-4 committers x 1-3 commits over {append, two-append txn
         "(+append), delete_snapshot, property set} on a table pre-seeded with 0-3 snapshots; topology "
         "separate/shared/mixed handles; backend local/CAS-S3; clock fine/coarse/frozen; scheduler "
         "random(p)/PCT(d)/default at seam granularity, plus a targeted hold parking one committer just before the commit "
-        "lock until another has committed (guaranteed stale base). Distinct = SHA-1 of the (actor, op, path-class, outcome) "
+        "lock until another has committed (guaranteed stale base), and - for threads sharing a handle - line-level "
+        "pre-emption (sys.settrace: any line of datashard code is a switch point with probability 0.2-5 %). Distinct = SHA-1 of the (actor, op, path-class, outcome) "
         "sequence of write/lock/pointer events; non-trivial = the run had >= 1 OCC retry, CAS conflict, lock "
         "contention or equal-timestamp commit AND >= 2 pointer flips by different actors.")
 ASSUMPTIONS = common.BASE_ASSUMPTIONS + [
     "refinement oracle: metadata version after each flip == model.apply(version before the flip, committing op)",
 ]
 COMPONENTS = common.COMPONENTS
-EXPECT_PROBES = ["commit_retry", "cas_conflict", "flock_contended", "rlock_contended", "equal_ms_commit", "flip"]
+EXPECT_PROBES = ["commit_retry", "cas_conflict", "flock_contended", "rlock_contended", "equal_ms_commit", "flip",
+                 "line_preemption", "hold_engaged"]
 CLAUSES = None  # every refinement clause is part of "the final table equals applying exactly the acked commits"
 
 
@@ -79,6 +81,10 @@ def gen(rng: random.Random, tier: str, idx: int) -> dict:
             "policy": common.gen_policy(rng), "faults": []}
     if rng.random() < 0.15:
         plan["retention"] = rng.randint(1, 3)
+    if topo in ("shared", "mixed") and rng.random() < 0.35:
+        # line-level pre-emption: threads sharing a handle may be switched between ANY two lines of datashard code,
+        # not only at storage calls (in-memory state races)
+        plan["preempt_p"] = rng.choice([0.002, 0.01, 0.05])
     if topo == "separate" and rng.random() < 0.3:
         # park one committer right before it takes the commit lock (its base is already read, its manifests written)
         # until another committer has finished an operation: a guaranteed stale base at validation time
@@ -110,6 +116,9 @@ def execute(plan: dict, scratch: str, replay: Optional[dict] = None) -> dict:
                faults=plan.get("faults"), start=ph0.sim.now + 1.0, store=ph0.world.store,
                clock_mode=plan.get("clock", "fine"), clock_quantum=plan.get("quantum", 1.0))
     w = ph.world
+    if plan.get("preempt_p"):
+        ph.sim.extra["preempt_p"] = plan["preempt_p"]
+        ph.sim.max_steps = 200000
     chk = RefineChecker(w, commit_order=order0, clauses=CLAUSES)
     byproc = {}
     for a in plan["actors"]:
